@@ -6,7 +6,7 @@ From BV Require Import Base.Prelude Model.Block Model.ForkDB Model.Forkable Mode
   Model.Burst Model.Hub Model.CursorResolver Model.Joining
   Spec.Consumer Spec.Universe Check.Burst_Check Check.C07_Check Spec.C06_Spec Spec.C07_Spec Spec.C09_Spec Spec.C13_Spec
   Spec.C07_Compose_Spec Spec.C07_Shapes_Spec Spec.C07_More_Spec Spec.C07_Final_Spec Spec.C07_FinalUnfixed_Spec Spec.C07_Fuel_Spec
-  Proofs.C07_ComposeRun Proofs.C07_ComposeCheck Proofs.C07_FullRefuted Proofs.C07_Shapes Proofs.C07_FiltersNum Proofs.C07_Final Proofs.C07_FinalRefuted Proofs.C07_Fuel
+  Proofs.C07_ComposeRun Proofs.C07_ComposeCheck Proofs.C07_FullRefuted Proofs.C07_Shapes Proofs.C07_FiltersNum Proofs.C07_FiltersCursor Proofs.C07_Final Proofs.C07_FinalRefuted Proofs.C07_Fuel
   Properties.C07_Compose.
 Local Open Scope N_scope.
 
@@ -27,6 +27,12 @@ Print Assumptions c07_num_raw.
 Theorem c07_seamless_num_nu : C07_seamless_num_nu.
 Proof. exact c07_seamless_num_nu_proof. Qed.
 Print Assumptions c07_seamless_num_nu.
+
+(* cursor mode (both cases: the hub serves the cursor, or the stream starts in the files), filters with New and Undo, ANY
+   stop block: discipline for every outcome, the four outcomes of c07_seamless_cursor when the stream ends waiting *)
+Theorem c07_seamless_cursor_nu : C07_seamless_cursor_nu.
+Proof. exact c07_seamless_cursor_nu_proof. Qed.
+Print Assumptions c07_seamless_cursor_nu.
 
 (* number mode, final blocks only (the stateful filter of the fix "each final block once"), any stop block: each
    delivered block extends the previous one; complete on the final chain.  No files_final hypothesis. *)
@@ -144,4 +150,27 @@ Proof.
     change (j_mode cx_c =? 0) with true in Hl. cbv iota in Hl. exact (Hk 0%nat _ burst Hl).
   - intros m lowest e burst Hj.
     destruct (join_mode0 cx_c (world_after cx_c m cx_w) lowest e burst eq_refl Hj) as (Hb & _). exact (Hk m _ burst Hb).
+Qed.
+
+(* cursor mode with a custom filter New|Undo|Irreversible (mask 19) and stop block 17: the cursor of
+   Properties/C07_Compose.v (New 109, a forked sibling of block 9, cursor LIB 6): the resolver undoes 109 and
+   announces 7, 8 final (the mask lets Irreversible through; the New|Undo consumer ignores them), the files bring 9..12, the join is at 13, the rest is live up to the stop block *)
+Definition mx_cc : jcfg := mkJ 2 0 10 1 0 (Some cx_cu) 17 2 19.
+
+Example c07_more_nonvacuous_cursor :
+  hub_of_universe cx_U mx_cc cx_w /\ eventual_tip mx_cc cx_w cx_canon /\
+  j_mode mx_cc = 1 /\ j_cursor mx_cc = Some cx_cu /\ has_nu (j_filter mx_cc) (j_custom mx_cc) = true /\ 0 < j_bundle mx_cc /\
+  from_num (rn (cu_lib cx_cu)) cx_canon = cx_b 6 :: map cx_b [7;8;9;10;11;12;13;14;15;16;17;18;19;20] /\
+  bref (cx_b 6) = cu_lib cx_cu /\
+  cursor_state cx_canon [cx_f9] cx_cu (cx_b 6) [cx_b 7; cx_b 8] [cx_f9] /\
+  cx_show (stream_run mx_cc cx_w [(3, 1); (12, 2)] 15 cx_merged [cx_f9])
+  = ([(SUndo, 109); (SIrr, 7); (SIrr, 8); (SNewIrr, 9); (SNewIrr, 10); (SNewIrr, 11); (SNewIrr, 12); (SNewIrr, 13); (SNew, 14);
+      (SNew, 15); (SNew, 116); (SUndo, 116); (SNew, 16); (SNew, 17)], JStop).
+Proof.
+  destruct c07_compose_nonvacuous_cursor as (Hhub & _ & _ & _ & _ & _ & _ & _ & Hf & HLr & Hst & _).
+  split; [exact Hhub|].
+  split; [apply eventual_tip_b_sound; vm_compute; reflexivity|].
+  split; [reflexivity|]. split; [reflexivity|]. split; [reflexivity|]. split; [reflexivity|].
+  split; [exact Hf|]. split; [exact HLr|]. split; [exact Hst|].
+  vm_compute. reflexivity.
 Qed.
